@@ -22,6 +22,8 @@ Lemma dec_fields_np : forall dec o fs,
   is_panic (dec_fields dec o fs) = false.
 Proof.
   intros dec o fs H. induction H as [|[[k m] s] fr Hx _ IH]; simpl; [reflexivity|].
+  destruct (is_inline m).
+  { apply bind_no_panic; [apply Hx|]. intros v _. apply bind_no_panic; [exact IH|]. reflexivity. }
   destruct (jlookup k o) as [j|].
   - apply bind_no_panic; [apply Hx|]. intros v _. apply bind_no_panic; [exact IH|]. reflexivity.
   - destruct (is_opt m); [apply bind_no_panic; [exact IH|]; reflexivity|].
@@ -84,6 +86,16 @@ Proof.
       eapply Forall_impl; [|exact H]. intros x Hx. apply Hx.
     + apply bind_no_panic; [|reflexivity]. apply find_alt_np.
       eapply Forall_impl; [|exact H]. intros x Hx. apply Hx.
+  - cbn [jdecode].
+    assert (Hhex : forall x, is_panic (let* b := decode_hex x in Ok (VStr (fit n b))) = false)
+      by (intros x; apply bind_no_panic; [apply decode_hex_np|reflexivity]).
+    assert (Hobj : forall o, is_panic (match jlookup key o with
+                                       | Some (JStr x) => (let* b := decode_hex x in Ok (VStr (fit n b)))
+                                       | _ => Err EShape end) = false)
+      by (intros o; destruct (jlookup key o) as [[]|]; try reflexivity; apply Hhex).
+    destruct ptr.
+    + apply bind_no_panic; [|reflexivity]. destruct code, j; try reflexivity; try apply Hhex; try apply Hobj.
+    + destruct j; try reflexivity; try apply Hhex. destruct code; [apply Hobj|reflexivity].
 Qed.
 
 Theorem jdecode_total : forall s j, (exists v, jdecode true s j = Ok v) \/ (exists e, jdecode true s j = Err e).
@@ -106,7 +118,8 @@ Lemma enc_fields_np : forall enc fs vs,
 Proof.
   intros enc fs vs H. revert vs. induction H as [|[[k m] s] fr Hx _ IH]; intros vs; destruct vs as [|v vr]; try reflexivity.
   cbn [enc_fields]. destruct ((is_omit m && is_empty s v) || (is_opt m && is_nil v)); [apply IH|].
-  apply bind_no_panic; [apply Hx|]. intros j _. apply bind_no_panic; [apply IH|]. reflexivity.
+  apply bind_no_panic; [apply Hx|]. intros j _. apply bind_no_panic; [apply IH|]. intros r _.
+  destruct (is_inline m); [destruct j; reflexivity|reflexivity].
 Qed.
 
 Lemma enc_list_np : forall (enc : value -> res json) vs,
@@ -142,6 +155,7 @@ Proof.
   - destruct v; try reflexivity. apply bind_no_panic; [|reflexivity]. apply enc_entries_np; assumption.
   - destruct v; try reflexivity. destruct alts as [|a0 r0] eqn:Ea; [reflexivity|]. rewrite <- Ea in *.
     apply find_alt_np. eapply Forall_impl; [|exact H]. intros a Ha. apply Ha.
+  - destruct ptr; [destruct v; try reflexivity|]; destruct v; reflexivity.
 Qed.
 
 Theorem jencode_top_no_panic : forall s v, is_panic (jencode_top s v) = false.
